@@ -20,6 +20,8 @@ m = {
     "engines": [
         {"name": "simcore", "path": "sim/simcore", "serves_properties": sorted(CHECKS), "kind_free_text": "in-tree deterministic simulator: choice tape (one seed = one run), simulated Read/Write/Seek/BufRead/AsyncRead/AsyncWrite seams with fault injection, manual executor, tape shrinker, replay"},
         {"name": "gen", "path": "sim/gen", "serves_properties": sorted(CHECKS), "kind_free_text": "seeded workload generator and logical value model (oracle side never uses arrow's ==)"},
+        {"name": "own", "path": "sim/own", "serves_properties": ["C16"], "kind_free_text": "engine-independent ownership model (regions, handles, release counters, pool accounting) driven by the choice tape (stage 1) and by real threads under Miri (stage 2, sim/c16_miri)"},
+        {"name": "miri", "path": "sim/c16_miri", "serves_properties": ["C16"], "kind_free_text": "cargo +nightly miri run with -Zmiri-many-seeds: the interpreter owns thread interleaving at instruction granularity (seeded, replayable by -Zmiri-seed) and detects data races, use after free, double free and leaks"},
         {"name": "check", "path": "check", "serves_properties": sorted(CHECKS), "kind_free_text": "supervisor: builds against /repo's working tree, fans runs out over worker processes, attributes aborts and hangs, determinism recheck, evidence, known findings"},
     ],
     "checks": [],
